@@ -506,6 +506,11 @@ class Interp:
                 items.append(self.ev(e))
         return Tup(items)
 
+    def e_Slice(self, n):
+        # a slice inside a tuple index (x[:, 0]); plain x[a:b] is handled in e_Subscript
+        return Tup([Str("<slice>"), self.ev(n.lower) if n.lower else NONE, self.ev(n.upper) if n.upper else NONE,
+                    self.ev(n.step) if n.step else NONE])
+
     def e_List(self, n):
         items = []
         for e in n.elts:
